@@ -113,7 +113,9 @@ def run(tier, seed):
                 ck.violation({"clause": "unknown_p", "l": l, "N": Ntr}, "table has p outside 0..l: %s" % extra, {})
             # the jitted table agrees numerically with its own polynomial
             if l in jit_degrees and (Ntr in (2, 10, 20) or tier == "thorough"):
-                es = np.array([0.0, 0.03, 0.08, 0.15, 0.2])      # closed-form entries are only expanded to e^22
+                # closed-form entries ((1 - e^2)^-k factors, k up to 11 at l = 7) are only expanded to e^22 in the reference: at e = 0.2 the
+                # neglected tail is 1e-9 (false alarm of the first thorough sweep), at e = 0.1 it is 4e-17
+                es = np.array([0.0, 0.03, 0.06, 0.08, 0.1])
                 jt = fn(es)
                 for p in tab:
                     for q in tab[p]:
